@@ -92,7 +92,9 @@ def gen_history(rng, thorough):
                   'every': rng.choice([None, None, 2, 5, 10]), 'crash': (rng.randint(0, 7) if i == crash_at else None)})
   return {'prefix': rng.choice(['checkpoint_', 'model', 'ckpt_']), 'orbax': orbax, 'saves': saves, 'async': (not orbax) and rng.random() < 0.7 and crash_at is None, 'overlap': rng.random() < 0.7,
           # the legacy back-end on the native shim of flax/io.py (what runs without tensorflow): crash points are the os / shutil primitives it is made of
-          'native_io': (not orbax) and rng.random() < 0.4}
+          'native_io': (not orbax) and rng.random() < 0.4,
+          # the second public entry point (what the examples call); single process, no multiprocess arrays
+          'multiprocess': (not orbax) and rng.random() < 0.3}
 
 
 def distinct_step_values(h):
@@ -175,6 +177,9 @@ def run(chk):
                             {'history': h, 'save_index': i, 'api': api, 'snapshot': r['snapshot']})
           if was_crash and candidates is not None and latv not in candidates and not sv['overwrite']:
             chk.violation('oracle', 'after a crash the latest checkpoint is neither the previous latest nor the new one', {'history': h, 'save_index': i, 'api': api})
+      if not h['orbax'] and r.get('settled') and r.get('trees_ok') is False:
+        chk.violation('oracle', 'a checkpoint in the directory does not restore to the tree that was saved (an empty sub-tree or a key is missing)',
+                      {'history': h, 'save_index': i, 'snapshot': r['snapshot']})
       if r['outcome'] == 'saved':
         me = step_repr(sv['step'])
         mine = [x for x in listed if Fraction(x[0]) == Fraction(me)]
@@ -271,7 +276,8 @@ Definition chk (rows : list row) : bool := replay [] rows.
   chk.notes['saves_that_crashed'] = ncrash
   chk.notes['atomic_operation_kinds_observed'] = opkinds
   chk.notes['backends'] = {'orbax': sum(1 for h in hs if h['orbax']), 'legacy': sum(1 for h in hs if not h['orbax']), 'async': sum(1 for h in hs if h.get('async')),
-                           'legacy_on_native_io_shim': sum(1 for h in hs if h.get('native_io'))}
+                           'legacy_on_native_io_shim': sum(1 for h in hs if h.get('native_io')),
+                           'save_checkpoint_multiprocess': sum(1 for h in hs if h.get('multiprocess'))}
   chk.cov['rule'] = ('random histories of 2-6 saves (ints, floats, mixed, older and existing steps), keep 1-4, keep_every_n_steps in {None,2,5,10}, overwrite, 3 prefixes, both back-ends, '
                      'AsyncManager; in ~80% of histories one save dies after k in 0..7 atomic operations (torn write included); in the thorough tier every crash point of every save '
                      'of 60 histories. Observed after every save: directory snapshot (every entry restored), outcome, operation kinds, latest_checkpoint, available_steps, restore of latest. '
